@@ -476,3 +476,124 @@ Proof.
   - intros _ v Hs. destruct (getb md v) eqn:Hmv; [|reflexivity].
     destruct (Hin v Hmv) as [Hv _]. apply memb_In in Hv. rewrite Hv in Hs. discriminate.
 Qed.
+
+(** ** Schedules *)
+Lemma upd_length {A} (l : list A) v x : length (upd l v x) = length l.
+Proof. revert v. induction l as [|y l IH]; intros v; cbn; [reflexivity|]. destruct v; cbn; [reflexivity|]. rewrite IH. reflexivity. Qed.
+
+Lemma upd_nth {A} (l : list A) v x d u :
+  nth u (upd l v x) d = if Nat.eqb u v && Nat.ltb v (length l) then x else nth u l d.
+Proof.
+  revert v u. induction l as [|y l IH]; intros v u.
+  - cbn. rewrite andb_false_r. reflexivity.
+  - destruct v; destruct u; cbn [upd nth length]; try reflexivity.
+    rewrite IH. change (Nat.eqb (S u) (S v)) with (Nat.eqb u v).
+    change (Nat.ltb (S v) (S (length l))) with (Nat.ltb v (length l)). reflexivity.
+Qed.
+
+Lemma sched_write_length {A} wr (f : nat -> A) order arr :
+  length (sched_write wr f order arr) = length arr.
+Proof.
+  unfold sched_write. revert arr. induction order as [|v r IH]; intros arr; cbn; [reflexivity|].
+  rewrite IH. destruct (wr v); [apply upd_length|reflexivity].
+Qed.
+
+Lemma sched_write_nth {A} wr (f : nat -> A) d order : forall arr u,
+  nth u (sched_write wr f order arr) d
+  = if existsb (Nat.eqb u) order && wr u && Nat.ltb u (length arr) then f u else nth u arr d.
+Proof.
+  unfold sched_write. induction order as [|v r IH]; intros arr u; [reflexivity|].
+  cbn [fold_left existsb]. rewrite IH.
+  assert (Hl : length (if wr v then upd arr v (f v) else arr) = length arr)
+    by (destruct (wr v); [apply upd_length|reflexivity]).
+  rewrite Hl.
+  destruct (Nat.eqb u v) eqn:E.
+  - apply Nat.eqb_eq in E. subst v. cbn [orb].
+    destruct (wr u) eqn:Hw.
+    + rewrite upd_nth. rewrite Nat.eqb_refl. cbn [andb].
+      destruct (existsb (Nat.eqb u) r); cbn [andb]; destruct (Nat.ltb u (length arr)); reflexivity.
+    + rewrite andb_false_r. reflexivity.
+  - cbn [orb]. destruct (wr v); [|reflexivity].
+    rewrite upd_nth. rewrite E. reflexivity.
+Qed.
+
+Theorem schedule : S_schedule.
+Proof.
+  intros A d wr f order arr Hperm.
+  apply nth_ext with (d := d) (d' := d).
+  - rewrite sched_write_length, tab_length. reflexivity.
+  - intros u Hu. rewrite sched_write_length in Hu.
+    rewrite sched_write_nth. rewrite tab_nth by exact Hu.
+    assert (Hin : existsb (Nat.eqb u) order = true).
+    { apply existsb_exists. exists u. split; [|apply Nat.eqb_refl].
+      apply (Permutation_in u (Permutation_sym Hperm)). apply in_seq. lia. }
+    rewrite Hin. apply Nat.ltb_lt in Hu. rewrite Hu. rewrite andb_true_r. reflexivity.
+Qed.
+
+(** ** The exact instance *)
+Lemma bits_join_nth a b w : nth w (bits_join a b) false = nth w a false || nth w b false.
+Proof.
+  revert b w. induction a as [|x a IH]; intros b w.
+  - cbn. destruct w; reflexivity.
+  - destruct b as [|y b]; [cbn [bits_join]; destruct w; cbn; rewrite orb_false_r; reflexivity|].
+    destruct w; cbn; [reflexivity | apply IH].
+Qed.
+
+Lemma bits_semilattice : semilattice bits_join.
+Proof.
+  split; [|split].
+  - induction a as [|x a IH]; intros b c; [reflexivity|].
+    destruct b as [|y b]; [reflexivity|]. destruct c as [|z c]; [reflexivity|].
+    cbn. rewrite IH. rewrite orb_assoc. reflexivity.
+  - induction a as [|x a IH]; intros b; destruct b as [|y b]; try reflexivity.
+    cbn. rewrite IH. rewrite orb_comm. reflexivity.
+  - induction a as [|x a IH]; [reflexivity|]. cbn. rewrite IH. rewrite orb_diag. reflexivity.
+Qed.
+
+Lemma bits_size_mono a b : bits_join a b = b -> (bits_size a <= bits_size b)%Z.
+Proof.
+  unfold bits_size, count_true. intros H. apply inj_le. revert b H.
+  induction a as [|x a IH]; intros b H; [cbn; lia|].
+  destruct b as [|y b]; [discriminate|].
+  cbn in H. injection H as Hxy Hab. specialize (IH b Hab).
+  cbn [filter]. destruct x; destruct y; cbn in Hxy; try discriminate; cbn [length]; lia.
+Qed.
+
+Theorem nf_monotone_exact : S_nf_monotone_exact.
+Proof.
+  intros g n t.
+  apply (nf_monotone (list bool) bits_join [] bits_size g (singletons n) t bits_semilattice bits_size_mono).
+Qed.
+
+Theorem ball_exact : S_ball_exact.
+Proof.
+  intros g n t v w Hwf Hv Hw.
+  assert (Hlen : length (singletons n) = n) by apply tab_length.
+  assert (HP : forall a b, nth w (bits_join a b) false = true <-> nth w a false = true \/ nth w b false = true).
+  { intros a b. rewrite bits_join_nth. apply orb_true_iff. }
+  pose proof (ball_mem (list bool) bits_join [] (fun a => nth w a false = true) g (singletons n) HP) as H.
+  rewrite Hlen in H. rewrite (H Hwf t v Hv). clear H. split.
+  - intros [w' [Hwi Hb]]. unfold HyperBall.get, singletons in Hb.
+    destruct (Nat.lt_ge_cases w' n) as [Hw'|Hw'].
+    + rewrite tab_nth in Hb by exact Hw'. unfold singleton in Hb. rewrite tab_nth in Hb by exact Hw.
+      apply Nat.eqb_eq in Hb. subst. exact Hwi.
+    + rewrite tab_nth_over in Hb by exact Hw'. destruct w; discriminate.
+  - intros Hwi. exists w. split; [exact Hwi|]. unfold HyperBall.get, singletons.
+    rewrite tab_nth by exact Hw. unfold singleton. rewrite tab_nth by exact Hw. apply Nat.eqb_refl.
+Qed.
+
+(** ** The defect *)
+Definition bs (n : nat) (l : list nat) : list bool := tab n (fun i => memb i l).
+Definition wit_g : graph := [[1];[2];[];[0];[0];[0];[0];[0];[0];[3];[];[];[];[]].
+Definition wit_gt : graph := [[3;4;5;6;7;8];[0];[1];[9];[];[];[];[];[];[];[];[];[];[]].
+Definition wit_c0 : list (list bool) :=
+  [bs 14 [0]; bs 14 []; bs 14 [2]; bs 14 [3;0]; bs 14 [4;0]; bs 14 [5;0]; bs 14 [6;0]; bs 14 [7;0]; bs 14 [8;0];
+   bs 14 [9;3;0]; bs 14 [10]; bs 14 [11]; bs 14 [12]; bs 14 [13]].
+
+Theorem nf_refuted : S_nf_refuted.
+Proof.
+  exists wit_g, wit_gt, wit_c0.
+  split; [vm_compute; reflexivity|]. split; [reflexivity|].
+  cbv zeta. split; [vm_compute; reflexivity|]. split; [vm_compute; reflexivity|].
+  vm_compute. discriminate.
+Qed.
